@@ -38,6 +38,11 @@ func c09Round2(c *Ctx) {
 	for _, f := range getBodyFresh(p) {
 		c.Check(f.OK, "R09k", f.Key, f.Pos, "fresh reader", f.Detail)
 	}
+	// ---- R09m
+	c.Rule("R09m", "closing the read blocker of a request body stops further reads on every path on which Close can succeed", 1)
+	for _, f := range blockerCloseBlocks(p) {
+		c.Check(f.OK, "R09m", f.Key, f.Pos, "", f.Detail)
+	}
 	// ---- R09l
 	c.Rule("R09l", "the APK signer digests the end-of-directory record of the serialiser whose output it patches in", 1)
 	for _, f := range apkDigestedDirectoryIsWrittenDirectory(p) {
